@@ -54,6 +54,9 @@ def _mk(start, step, n, with_attr, two_d=False):
 
     coords = start + np.arange(n) * step
     attrs = {"step": step} if with_attr else {}
+    if n % 4 == 1:
+        # range annotations left over from an earlier life of the axis (before a crop): the coordinates are what counts
+        attrs.update(start=float(start - 5 * step), end=float(start + (n + 3) * step), stop=float(start + (n + 3) * step))
     if two_d:
         data = (np.arange(n, dtype=float) + 1)[:, None] * np.array([1.0, 1000.0])[None, :]
         return xr.DataArray(data, dims=["time", "channel"], coords={"time": xr.Variable("time", coords, attrs=attrs), "channel": [0, 1]})
